@@ -79,8 +79,8 @@ def part_b(ctx):
                     for cuts in parts:
                         jobs.append({"recipe": rname, "kind": kind, "shape": shape, "qe": 0.5, "nd": nd,
                                      "start": start, "times": [start + t for t in cuts], "cuts": cuts, "scale": 1})
-                    if not nd:   # destructive: scale every interval by 2 and 4
-                        for c in (2, 4):
+                    if not nd:   # destructive: scale every interval by 2 and 4 - and down to nanoseconds
+                        for c in (2, 4) + ((2.0 ** -30,) if start == 0 else ()):
                             jobs.append({"recipe": rname, "kind": kind, "shape": shape, "qe": 0.5, "nd": False,
                                          "start": start, "times": [start + c * t for t in parts[1]],
                                          "cuts": parts[1], "scale": c})
